@@ -434,7 +434,7 @@ pub fn c05(opts: &Opts) -> Report {
     o2.threads = 1;
     let mut rep = run_parallel(&o2, "C05",
         "call histories of 2-120 parse/format calls in one process over a pool built to collide on all but one component of each cache key (same text / different separator, same pattern / different flags, same length / different content, two inputs with the same 64-bit DefaultHasher value) with inputs straddling 10 000 bytes / 1 000 parts and failing calls; each warm result is compared with the same call after clear_caches() and with the model (cache-free Spec and run_st over the model's caches); a history is non-trivial when the hook counters show at least one split-cache hit and one admission bypass or regex hit",
-        opts.cases(150, 10_000), &|ctx, i| {
+        opts.cases(150, 2_000), &|ctx, i| {
             let n = 2 + ctx.rng.below(if i % 10 == 0 { 119 } else { 30 });
             // pool for this history
             let mut inputs: Vec<String> = vec![COLLIDE_A.into(), COLLIDE_B.into(), "a,b,c".into(), "a,b,d".into(), "a;b;c".into(), "hello world".into(), "HELLO world".into(), "how o w\nHow".into(), String::new()];
